@@ -916,11 +916,30 @@ def r_rehash_loop(F, V):
     if k_i == k_new:
         probs.append("is_in_same_group compares a slot with itself")
 
-    def ptr_index_key(op):
-        # the index argument of the bucket_ptr call an element pointer comes from
-        for og in body.origins(op):
-            if og[0] == "call" and (callee_path(og[2]) or "").endswith("RawTableInner::bucket_ptr") and len(og[2]["args"]) > 1:
-                return expr_key(body, og[2]["args"][1])
+    def ptr_index_key(op, depth=0):
+        # the index argument of the bucket_ptr call an element pointer comes from (field-sensitive through tuples / copies)
+        if depth > 10 or op["k"] not in ("copy", "move"):
+            return None
+        pl = op["p"]
+        flds = [e for e in pl.get("proj", []) if e["k"] == "field"]
+        d = body.single_def(pl["l"])
+        if d is None:
+            return None
+        if d[0] == "call":
+            if (callee_path(d[3]) or "").endswith("RawTableInner::bucket_ptr") and len(d[3]["args"]) > 1:
+                return expr_key(body, d[3]["args"][1])
+            return ptr_index_key(d[3]["args"][0], depth + 1) if d[3]["args"] else None
+        rv = d[3]["rv"]
+        if rv["k"] == "aggregate" and flds:
+            idx = flds[0].get("i")
+            if idx is None:
+                try:
+                    idx = int(flds[0].get("name"))
+                except (TypeError, ValueError):
+                    return None
+            return ptr_index_key(rv["ops"][idx], depth + 1) if idx < len(rv["ops"]) else None
+        if rv["k"] in ("use", "cast"):
+            return ptr_index_key(rv["op"], depth + 1)
         return None
     for i, t in body.calls():
         cp = callee_path(t) or ""
